@@ -56,3 +56,13 @@ Example ex_views :
   = [OView 1 []; OScalar (BElem None); OView 3 [2; 2];
      OScalar (BElem (Some 21)); OScalar (BElem (Some 101))].
 Proof. vm_compute. reflexivity. Qed.
+
+(* paired lists on two axes: s[[0, 1], [2, 0], 1] selects (0,2,1) and (1,0,1) only; exactly these
+   two elements are evaluated (sorted order), not the 2 x 2 box *)
+Example ex_paired_lists :
+  let item := [IList [0%Z; 1%Z]; IList [2%Z; 0%Z]; IInt 1%Z] in
+  let r := bs_request ex_zero None 10 ex_descs (QGet 0 item) ex_w0 in
+  fst (fst r) = OArray [2] [BElem (Some 21); BElem (Some 101)] [false; false] /\
+  eval_calls (snd r) = [(0, [0; 2; 1]); (0, [1; 0; 1])] /\
+  keys (wcache (snd r) 0) = [[0; 2; 1]; [1; 0; 1]].
+Proof. vm_compute. repeat split. Qed.
